@@ -1,1 +1,13 @@
-print('translator: no sites yet')
+"""Run every property's translate() (regenerates lean/Mouette/Generated/*.lean from the source tree)."""
+import importlib, os, sys
+sys.path.insert(0, os.path.dirname(os.path.dirname(os.path.abspath(__file__))))
+sys.path.insert(0, os.environ.get("MOUETTE_REPO", "/repo"))
+for i in range(1, 21):
+    pid = f"c{i:02d}"
+    try:
+        mod = importlib.import_module(f"vlib.props.{pid}")
+    except ModuleNotFoundError:
+        continue
+    if hasattr(mod, "translate"):
+        for s in mod.translate():
+            print(pid, s["site"], "ok" if s["ok"] else "BROKEN: " + str(s["detail"])[:200])
